@@ -106,6 +106,30 @@ AddrText(b) ==
   ELSE IF Len(b) = 16 THEN IP6Text(Groups(b))
   ELSE NilText
 
+\* a zone-qualified address (netip.Addr.WithZone): the text, '%', the zone characters
+ZonedAddrText(b, zone) == IF zone = <<>> THEN AddrText(b) ELSE AddrText(b) \o <<"%">> \o zone
+
+\* ---- time.StampMilli ("Jan _2 15:04:05.000") of an instant *in its own location* ---------------------
+\* A time value is (unix seconds, milliseconds, offset of its location in minutes east of UTC): the same instant
+\* has a different text in every location.  Civil date from the day number (proleptic Gregorian calendar).
+Months == <<"Jan", "Feb", "Mar", "Apr", "May", "Jun", "Jul", "Aug", "Sep", "Oct", "Nov", "Dec">>
+Civil(days) ==
+  LET z   == days + 719468
+      era == z \div 146097
+      doe == z - era * 146097
+      yoe == (doe - doe \div 1460 + doe \div 36524 - doe \div 146096) \div 365
+      doy == doe - (365 * yoe + yoe \div 4 - yoe \div 100)
+      mp  == (5 * doy + 2) \div 153
+  IN  [d |-> doy - (153 * mp + 2) \div 5 + 1, m |-> IF mp < 10 THEN mp + 3 ELSE mp - 9]
+Dec2(n) == <<Dg(n \div 10), Dg(n % 10)>>
+Dec3(n) == <<Dg(n \div 100), Dg((n \div 10) % 10), Dg(n % 10)>>
+StampMilliText(unix, ms, offMin) ==
+  LET loc == unix + offMin * 60                      \* wall clock of the location, as seconds since the epoch
+      c   == Civil(loc \div 86400)
+      sod == loc % 86400
+  IN  <<Months[c.m], " ">> \o (IF c.d < 10 THEN <<" ", Dg(c.d)>> ELSE Dec2(c.d)) \o <<" ">>
+      \o Dec2(sod \div 3600) \o <<":">> \o Dec2((sod % 3600) \div 60) \o <<":">> \o Dec2(sod % 60) \o <<".">> \o Dec3(ms)
+
 \* ---- mechanism level: appendIP6 (logging.go:483-530) -----------------------------------------
 \* for i in 0..7 { for j in i..7 { if group j # 0 break; if zeros := j-i; zeros > 1 && zeros > endZ-startZ {startZ,endZ = i,j} } }
 \* run <<i, j>> (1-based, inclusive) has j-i+1 groups; `zeros > 1` admits runs of at least MinRun = 3 groups.
